@@ -10,9 +10,11 @@
    calling the parser (no passphrase / right passphrase / wrong passphrase).  Action Parse runs the
    code-shaped decision procedure (Decide, checks in the order of the code).  The property C39 is the
    set of invariants at the end; where the code deliberately or accidentally deviates, the deviation is
-   delimited exactly (Gaps). *)
+   delimited exactly (Gaps; empty since fix 189504f). *)
 EXTENDS Integers, Sequences, FiniteSets, TLC
 
+CONSTANT FixConsistency \* TRUE: the envelope's public key and Ed25519's redundant halves are checked (the code since fix 189504f,
+                        \* findings C39-K1..K4); FALSE: the earlier parser that looked at neither (documentation only, OpenSSHKey_Doc.cfg)
 CONSTANT Menus   \* set of records [src, kt, enc, mode, corr] of sets
 
 KeyTypes == {"rsa", "ecdsa256", "ecdsa384", "ecdsa521", "ed25519", "dsa"}
@@ -37,8 +39,9 @@ Consistent == {"none", "commentChanged"}
    bytes after the container): accepting or rejecting are both in line with the property, an accepted key must still
    be consistent *)
 Harmless == {"pubFieldOther", "iqmpWrong", "pqSwapped", "padLong", "trailing"}
-(* classes the code accepts although the accepted key contradicts the file (open findings) *)
-Gaps(kt) == {"outerPubOther", "outerPubGarbage"} \cup (IF kt = "ed25519" THEN {"seedMismatch", "privPubHalfOther"} ELSE {})
+(* classes the parser before fix 189504f accepted although the accepted key contradicts the file (C39-K1..K4) *)
+OldGaps(kt) == {"outerPubOther", "outerPubGarbage"} \cup (IF kt = "ed25519" THEN {"seedMismatch", "privPubHalfOther"} ELSE {})
+Gaps(kt) == IF FixConsistency THEN {} ELSE OldGaps(kt)
 
 VARIABLES f, res, phase
 vars == <<f, res, phase>>
@@ -64,7 +67,9 @@ TypeD(x) ==
   IF x.corr = "keytypeUnknown" \/ x.kt \notin Handled THEN "err"
   ELSE IF x.corr \in {"padWrongByte", "padOrder", "privShort"} THEN "err"
   ELSE IF x.corr \in {"nMismatch", "dMismatch", "eMismatch", "pointMismatch", "dOutOfRange"} THEN "err"
-  ELSE "key"          \* nothing else is looked at: not the public key in the envelope, not Ed25519's redundant halves
+  ELSE IF FixConsistency /\ x.corr \in {"pubFieldOther", "seedMismatch", "privPubHalfOther"} THEN "err"   \* Ed25519: seed, public half and public field agree
+  ELSE IF FixConsistency /\ x.corr \in {"outerPubOther", "outerPubGarbage"} THEN "err"                   \* the envelope's public key is the key's public key
+  ELSE "key"          \* (FixConsistency = FALSE: nothing else was looked at)
 
 Decide(x) ==
   IF x.corr \in {"magic", "truncated"} THEN "err"
@@ -98,7 +103,8 @@ WrongPassphrase == (Done /\ f.mode = "wrong" /\ Encrypted(f) /\ f.corr \notin (C
 MissingPassphrase == (Done /\ f.mode = "nopass" /\ Encrypted(f) /\ f.corr \notin Container) => res = "needpass"
 (* what is accepted is consistent -- except exactly the listed gaps *)
 AcceptOnlyConsistentOrGap == (Done /\ res = "key") => (f.corr \in Consistent \cup Harmless \/ f.corr \in Gaps(f.kt))
-(* the property as stated (expected counterexample in OpenSSHKey_Doc.cfg) *)
+(* the property as stated; with FixConsistency = FALSE it fails: the expected counterexample of OpenSSHKey_Doc.cfg
+   documents the repaired defects C39-K1..K4 *)
 AcceptOnlyConsistent == (Done /\ res = "key") => f.corr \in Consistent \cup Harmless
 (* the property's expectation for binding R: "key" | "badpass" | "needpass" | "reject" | "any" *)
 Want(x) == LET right == (x.mode = "nopass" /\ ~Encrypted(x)) \/ (x.mode = "right" /\ Encrypted(x)) IN
